@@ -453,7 +453,7 @@ func lockstepCase(c *ev.Case) {
 func main() {
 	r := ev.New("C16")
 	r.Rule("one case = a seeded sequence of Add/Remove/Contains/Grow/Cap/Clone/Diff/Intersect/Merge over setz.Bits, setz.Bitmap and dsz.Bits objects, each with its own Go-map model (lockstep: random sequences; pairs: one pair of subsets of the word-boundary values per case index, enumerated completely; words: operands of 0..6 words from bit patterns, every receiver/operand word count combination; iter: enumeration workloads; windows: 2-12 operations without any observing call, then all observers in a drawn order; big: sets of 15-65537 words around powers of two; reentrant: enumerations whose receiving code reads, edits or panics). distinct = distinct hash of the operation sequence / operand contents; non-trivial = at least one bulk operation (iter engine: at least one member) with all of Len, Contains sweep, Iter, Range, All compared afterwards")
-	r.Assume("the set model (Go map + sort) is the specification; values stay below ~1200 for Add/Grow (larger values only for Contains/Remove, which must not allocate); word counts are read through Cap() for coverage counters only; nothing is asserted about the value of Cap()")
+	r.Assume("the set model (Go map + sort) is the specification; values stay below ~1200 for Add/Grow except in the big engine (larger values only for Contains/Remove, which must not allocate); word counts are read through Cap() for coverage counters only; nothing is asserted about the value of Cap()")
 	r.Assume("what an enumeration reports after its own receiving code has edited the set is not looked at (the statement does not settle it); the element operations made from there and the state of the object afterwards are compared as usual; big engine: values up to 2^22+2^17, Contains compared at members, neighbours, word/capacity edges, powers of two and random values when a set has more than 2100 words")
 	r.Assume("Range's callback returning false stops the enumeration (the only meaning its bool result has); All obeys the iter.Seq protocol")
 	r.Cases("lockstep", r.N(50000, 1500000), ev.Opt{HangViolation: true}, lockstepCase)
